@@ -104,8 +104,10 @@ func (em *emitter) emitNodes(nodes []ast.Node) {
 		case *ast.For:
 			currentBreakable := em.breakable
 			currentBreakLabel := em.breakLabel
+			currentInForRange := em.inForRange
 			em.breakable = true
 			em.breakLabel = nil
+			em.inForRange = false
 			em.fb.enterScope()
 			if node.Init != nil {
 				em.emitNodes([]ast.Node{node.Init})
@@ -144,6 +146,7 @@ func (em *emitter) emitNodes(nodes []ast.Node) {
 			}
 			em.breakable = currentBreakable
 			em.breakLabel = currentBreakLabel
+			em.inForRange = currentInForRange
 
 		case *ast.ForRange:
 			em.emitForRange(node)
